@@ -407,3 +407,58 @@ Example C04_downstream_rules_after_hop_removal_nonvacuous :
   hlookup (mutate_headers e [] rules2 [] (resp_strip h)) (bs "X-Tok"%string) = None /\
   hlookup (resp_strip (mutate_headers e [] rules2 [] h)) (bs "X-Tok"%string) = Some [bs "internal"%string].
 Proof. vm_compute. auto 6. Qed.
+
+(* ---- sequences of requests through ONE loaded configuration: every request by itself ----
+   Proxy.ServeHTTP builds the replacer, the upstream request and the header_downstream update
+   function per request. For EVERY configuration, EVERY history of exchanges served before through
+   the same hosts, and EVERY sequence served after it: the result for the i-th request — the headers
+   its backend receives and the header map its client receives — is what serving that request ALONE
+   gives (serve_one: a function of the request, the chosen target, the headers already on its
+   ResponseWriter, its backend's response and the configuration); in particular the
+   header_upstream / header_downstream operations applied are the configured ones with their
+   placeholders evaluated on THIS request's method, Host, client address and header map. *)
+Theorem C04_header_rules_depend_on_own_request :
+  forall c retriable hist xs i x,
+  nth_error xs i = Some x ->
+  exists r, nth_error (serve_seq c retriable hist xs) i = Some r /\
+    r = serve_one c retriable x /\
+    (forall k, hlookup (o_hdr (xr_sent r)) k =
+               fold_left vop_apply (vops_for (subst_of (env_of (x_q x)) (q_hdr (x_q x))) (c_up c) k ++
+                                    revops_for (subst_of (env_of (x_q x)) (q_hdr (x_q x))) (c_upre c) k)
+                         (hlookup (auth_hdr (x_t x) (create_upstream_headers (q_remote (x_q x)) (q_hdr (x_q x)))) k)) /\
+    (forall k, keys_ok (b_hdr (x_b x)) -> k <> K_TRAILER \/ b_announced (x_b x) = [] ->
+               hlookup (v_hdr (xr_view r)) k =
+               copy_value gen_skip_headers (hlookup (x_pre x) k)
+                 (fold_left vop_apply (vops_for (subst_of (env_of (x_q x)) (q_hdr (x_q x))) (c_down c) k ++
+                                       revops_for (subst_of (env_of (x_q x)) (q_hdr (x_q x))) (c_downre c) k)
+                            (hlookup (resp_strip (b_hdr (x_b x))) k)) k).
+Proof. exact header_rules_depend_on_own_request. Qed.
+Print Assumptions C04_header_rules_depend_on_own_request.
+
+(* ... hence equal requests get equal results wherever they stand, after whatever other traffic *)
+Theorem C04_header_rules_history_independent :
+  forall c retriable hist1 hist2 xs1 xs2 i j x,
+  nth_error xs1 i = Some x -> nth_error xs2 j = Some x ->
+  nth_error (serve_seq c retriable hist1 xs1) i = nth_error (serve_seq c retriable hist2 xs2) j.
+Proof. exact header_rules_history_independent. Qed.
+Print Assumptions C04_header_rules_history_independent.
+
+(* two clients (GET one.example, Origin app.one / POST two.example, Origin app.two) through
+   `header_downstream Access-Control-Allow-Origin {>Origin}` and `header_downstream X-Served "{method} {host}"`:
+   the second gets ITS values *)
+Example C04_header_rules_depend_on_own_request_nonvacuous :
+  acao (nth_error (serve_seq wit_seq_c false [] [wit_seq_x1; wit_seq_x2]) 1) = Some [bs "https://app.two.example"%string] /\
+  served (nth_error (serve_seq wit_seq_c false [] [wit_seq_x1; wit_seq_x2]) 1) = Some [bs "POST two.example"%string] /\
+  acao (nth_error (serve_seq wit_seq_c false [] [wit_seq_x1; wit_seq_x2]) 0) = Some [bs "https://app.one.example"%string] /\
+  keys_ok (b_hdr (x_b wit_seq_x2)).
+Proof. exact seq_own_request_witness. Qed.
+
+(* what the theorem excludes: with a response update function built once per host and kept (its
+   closure holding the replacer of the first request that reached the host) the first request is
+   served as before and the second client receives the FIRST client's Origin, method and Host *)
+Example C04_downstream_fn_cached_per_host_differs :
+  acao (nth_error (serve_seq_cached wit_seq_c false [] [wit_seq_x1; wit_seq_x2]) 1) = Some [bs "https://app.one.example"%string] /\
+  served (nth_error (serve_seq_cached wit_seq_c false [] [wit_seq_x1; wit_seq_x2]) 1) = Some [bs "GET one.example"%string] /\
+  nth_error (serve_seq_cached wit_seq_c false [] [wit_seq_x1; wit_seq_x2]) 1 <> Some (serve_one wit_seq_c false wit_seq_x2) /\
+  nth_error (serve_seq_cached wit_seq_c false [] [wit_seq_x1; wit_seq_x2]) 0 = Some (serve_one wit_seq_c false wit_seq_x1).
+Proof. exact cached_downstream_fn_differs. Qed.
